@@ -14,9 +14,18 @@ SPECIAL_STRINGS = [
     "a, b", "---", "...", "--- a", "<<", "=", "a\\", "a'b\"c", "\"", " # ", "key: [1, 2]", "'single'", "a  b", "x" * 200, "line1\nline2\n  indented\n",
     " ", "a ", "​", "tab\there", " \t ", "\\u0041", "\\x41", "%41", "&amp;", "</script>", "\U0001F600\u0000",
 ]
+# generator audit 2026-10-02: words that YAML 1.1 types implicitly (dates, sexagesimal, binary / octal, merge key, tags, document
+# markers inside a text), JSON look-alikes, a long text with blanks and a line break far beyond any folding width, a lone surrogate escape
+SPECIAL_STRINGS += ["2001-12-14", "2001-12-14t21:59:43.10-05:00", "12:30:45", "190:20:30.15", "0b101", "0o17", "017", "1__0", "!!str a", "!!binary aGk=", "<<: *a", "*a", "&a b",
+                    "Y", "N", "ON", "Off", "~ ", "null ", " null", "NaN", ".NaN", ".Inf", "-.INF", "1e", "1.e5", "0.", "-0", "+.5", "0x", "{\"a\": 1}", "[1, 2]", "a: b: c", "a:\tb",
+                    "text\n---\nmore", "text\n...\n", "--- |", "key:\n  - item", "? ", ": ", "- - a", "#", " #", "a #", "a\t#b", "\\ud83d", "\\", "\"\\\"\"", "'\"'",
+                    "word " * 60 + "\n" + "tail " * 40, "trailing blanks   \n  leading blanks", "\n\n", "\n ", " \n", "\r\n", "a\rb", "\t\n\t"]
 SPECIAL_CHARS = ["a", " ", "\n", "\t", "'", '"', "\\", ":", "#", "~", "-", "0", "é", "日", "😀", "\u0085", " ", "\x00", "|", ">", "[", "{", ","]
 DECIMALS = ["0", "1", "-1", "2", "10", "1.5", "1.50", "-0.001", "0.0001", "123.456", "1000000", "0.10", "2.000", "-12345.678900",
-            "79228162514264337593543950335", "0.0000000000000000000000000001", "7922816251426433759354395.0335", "3.14159265358979323846264338"]
+            "79228162514264337593543950335", "0.0000000000000000000000000001", "7922816251426433759354395.0335", "3.14159265358979323846264338",
+            # (all in the form Decimal's Display prints: the data-model level treats a decimal as that string)
+            "-79228162514264337593543950335", "-0.0000000000000000000000000001", "0.0", "0.000", "0.5", "-0.5", "0.50", "100", "4294967296", "18446744073709551616",
+            "-18446744073709551616.0", "0.1000000000000000000000000000", "9999999999999999999999999999", "1.000000000000000000000000000"]
 
 def f2b(x):
     return struct.unpack(">Q", struct.pack(">d", x))[0]
@@ -78,6 +87,8 @@ class Gen:
             return ("Some", self.val(inner, depth + 1))
         if k == "vec":
             n = rng.choice([0, 0, 1, 1, 2, 3]) if depth < 6 else rng.choice([0, 1])
+            if depth >= 3 and rng.random() < 0.008:
+                n = rng.choice([17, 33])          # now and then a long list (of points, elements, properties ...)
             return ("L", [self.val(t["t"], depth + 1) for _ in range(n)])
         if k == "array":
             return ("L", [self.val(t["t"], depth + 1) for _ in range(t["n"])])
@@ -198,6 +209,8 @@ def copies_ok(res, ty):
     ok = res.get("json", {}).get("ok") is True and res.get("yaml", {}).get("ok") is True
     if ty == "gds":
         ok = ok and all(x is True for x in res.get("gds_bytes_same", [False]))
+        # the converter functions on files (to_markup / from_markup): null = the library is no GDSII file at all (not a case)
+        ok = ok and all(x is not False for x in res.get("gds_files_same", [False]))
     return ok
 
 def run(chk, replay=None):
@@ -295,10 +308,33 @@ def run(chk, replay=None):
         c, r, k = viol[0]
         # re-run the smallest with texts for the replay file
         chk.violation("%s library copy through JSON/YAML is not lossless (%d of %d cases): %s" % (c["ty"], len(viol), len(cases), summarize(r)),
-                      {"cases": [strip(x[0]) for x in viol[:5]], "impl": [x[1] for x in viol[:2]]})
+                      {"cases": [strip(x[0]) for x in viol[:5]], "impl": [x[1] for x in viol[:2]], "failing_flags": failing_flags([x[1] for x in viol])})
     elif mism:
         c, r, k = mism[0]
         chk.broken.append("correspondence C18: serde_json::to_value / from_value of a generated value differs from the model (code %s): %s" % (k, json.dumps(r)[:300]))
+
+def failing_flags(rs):
+    """which of the harness' comparisons fail, over all failing cases"""
+    out = {}
+    def hit(k):
+        out[k] = out.get(k, 0) + 1
+    for r in rs:
+        for f in ("json", "yaml"):
+            x = r.get(f, {})
+            for k, v in x.items():
+                if k in ("str_eq", "str_bits", "file_eq", "file_bits") and v is not True:
+                    hit("%s.%s" % (f, k))
+                elif k.endswith("_err"):
+                    hit("%s.%s" % (f, k))
+                elif k == "more":
+                    for k2, v2 in v.items():
+                        if v2 is not True:
+                            hit("%s.%s" % (f, k2))
+        for name in ("gds_bytes_same", "gds_files_same"):
+            for i, v in enumerate(r.get(name, [])):
+                if v is False or (v is None and name == "gds_bytes_same"):
+                    hit("%s[%s]" % (name, ("json", "yaml")[i]))
+    return out
 
 def tuplify(v):
     if isinstance(v, (list, tuple)) and v and isinstance(v[0], str) and v[0] in ("B", "I", "F", "S", "Null", "None", "Some", "L", "V"):
@@ -321,6 +357,8 @@ def summarize(r):
         out[f] = {k: (v if k != "text" else v[:200]) for k, v in x.items()}
     if "gds_bytes_same" in r:
         out["gds_bytes_same"] = r["gds_bytes_same"]
+    if "gds_files_same" in r:
+        out["gds_files_same (to_markup/from_markup on files)"] = r["gds_files_same"]
     return json.dumps(out)[:700]
 
 
